@@ -125,7 +125,7 @@ __CPROVER_ensures((!Q_NONEMPTY0 && gh_WK != OLD(wq_tail)) ==> wq_trk == OLD(wq_t
 #ifdef CV_HAS_qi_unblock_pop
 void qi_unblock_pop(SPB *ret, QI *this_, EXCP *e)
 __CPROVER_requires(QI_PRE(this_) && __CPROVER_is_fresh(ret, sizeof(*ret)) && __CPROVER_is_fresh(e, sizeof(*e)))
-__CPROVER_assigns(__CPROVER_object_whole(ret), QI_MODEL)
+__CPROVER_assigns(__CPROVER_object_whole(ret), QI_MODEL, gh_ep_addref, gh_ep_release)
 __CPROVER_ensures(QI_POST && ONE_CS && Q_SAME && gh_pr.fresh_n == 0)
 /* somebody waits: exactly the OLDEST waiting pop is removed and fails with exactly e, outside the lock */
 __CPROVER_ensures(W_NONEMPTY0 ==> (wq_head == OLD(wq_head) + 1 && wq_tail == OLD(wq_tail) && wq_trk == OLD(wq_trk)))
@@ -134,6 +134,8 @@ __CPROVER_ensures((W_NONEMPTY0 && gh_WK == OLD(wq_head)) ==> gh_pr.id[0] == OLD(
 /* nobody waits: nothing happens */
 __CPROVER_ensures(!W_NONEMPTY0 ==> (W_SAME && gh_pr.n == 0 && ret->value == 0))
 __CPROVER_ensures(e->_M_exception_object == OLD(e->_M_exception_object))
+/* the exception object stays referenced exactly by the future that received it (reference traffic balanced otherwise) */
+__CPROVER_ensures(gh_ep_addref - OLD(gh_ep_addref) == gh_ep_release - OLD(gh_ep_release) + ((W_NONEMPTY0 && e->_M_exception_object != 0) ? 1 : 0))
 ;
 #endif
 
@@ -215,13 +217,14 @@ __CPROVER_ensures((OLD(CNT(this_)) == 0 && gh_WK != OLD(wq_tail)) ==> wq_trk == 
 #ifdef CV_HAS_qv_unblock_pop
 void qv_unblock_pop(SPB *ret, QV *this_, EXCP *e)
 __CPROVER_requires(QV_PRE(this_) && __CPROVER_is_fresh(ret, sizeof(*ret)) && __CPROVER_is_fresh(e, sizeof(*e)))
-__CPROVER_assigns(__CPROVER_object_whole(ret), QV_MODEL(this_))
+__CPROVER_assigns(__CPROVER_object_whole(ret), QV_MODEL(this_), gh_ep_addref, gh_ep_release)
 __CPROVER_ensures(QV_POST(this_) && ONE_CS && CNT(this_) == OLD(CNT(this_)) && gh_pr.fresh_n == 0)
 __CPROVER_ensures(WV_NONEMPTY0 ==> (wq_head == OLD(wq_head) + 1 && wq_tail == OLD(wq_tail) && wq_trk == OLD(wq_trk)))
 __CPROVER_ensures(WV_NONEMPTY0 ==> (gh_pr.n == 1 && gh_pr.kind[0] == PR_EXC && gh_pr.exc[0] == OLD(e->_M_exception_object) && gh_pr.locked[0] == 0 && ret->value == 1))
 __CPROVER_ensures((WV_NONEMPTY0 && gh_WK == OLD(wq_head)) ==> gh_pr.id[0] == OLD(wq_trk))
 __CPROVER_ensures(!WV_NONEMPTY0 ==> (WV_SAME && gh_pr.n == 0 && ret->value == 0))
 __CPROVER_ensures(e->_M_exception_object == OLD(e->_M_exception_object))
+__CPROVER_ensures(gh_ep_addref - OLD(gh_ep_addref) == gh_ep_release - OLD(gh_ep_release) + ((WV_NONEMPTY0 && e->_M_exception_object != 0) ? 1 : 0))
 ;
 #endif
 
